@@ -3,6 +3,9 @@ import SF.Props.C04
 import SF.Props.C13
 import SF.Lemmas.NoPanic
 import SF.Props.C01
+import SF.Props.C05
+import SF.Props.C06
+import SF.Props.C11
 /-
   C08 — Readiness: None during warm-up, then a value for ever.
   Warm-up lengths are read off the characterisations: the view reports `some` exactly from the documented value on,
@@ -112,6 +115,90 @@ theorem lnReturn_ready (xs : List α) (hx : ∀ x ∈ xs, x ≠ 0) :
     · simp [Spec.lnReturn]
     · simp [Spec.lnReturn]
 end transc
+
+/-! ### more documented warm-up lengths -/
+/-- Rsi and MyRSI report nothing for fewer than N delivered values and report from the N-th on -/
+theorem rsi_ready (N : Nat) (hN : 0 < N) (xs : List α) :
+    (∃ v, (rsiCore (α := α) N).outAfter xs = .ok (some v)) ↔ N ≤ xs.length := by
+  rw [C05.rsi_eq N hN]
+  by_cases h : xs.length < N
+  · simp [Spec.rsi, h]
+  · have hne : xs ≠ [] := by intro e; subst e; simp at h; omega
+    simp [Spec.rsi, h, hne]; omega
+
+theorem myrsi_ready (N : Nat) (hN : 0 < N) (xs : List α) :
+    (∃ v, (myRsiCore (α := α) N).outAfter xs = .ok (some v)) ↔ N ≤ xs.length := by
+  rw [C05.myrsi_eq N hN]
+  by_cases h : xs.length < N
+  · simp [Spec.myRsi, h]
+  · simp [Spec.myRsi, h]; omega
+
+theorem smoothSeq_head [Transc α] (c : Coef α) (pad : α) (xs : List α) (h : xs ≠ []) : ∃ v, (smoothSeq c pad xs).head? = some v := by
+  have hl := SS.foldState_length c pad xs
+  rw [SS.smoothSeq_eq]
+  cases hh : (SS.foldState c pad xs).1 with
+  | nil => rw [hh] at hl; simp at hl; exact absurd hl.symm (by simpa using h)
+  | cons v r => exact ⟨v, rfl⟩
+
+/-- SuperSmoother: nothing for fewer than N delivered values, from the N-th on -/
+theorem superSmoother_ready [Transc α] (N : Nat) (hN : 0 < N) (xs : List α) :
+    (∃ v, (ssCore (α := α) N).outAfter xs = .ok (some v)) ↔ N ≤ xs.length := by
+  rw [C11.superSmoother_eq N hN]
+  by_cases h : xs.length < N
+  · simp [Spec.superSmoother, h]
+  · have hne : xs ≠ [] := by intro e; subst e; simp at h; omega
+    obtain ⟨v, hv⟩ := smoothSeq_head (Spec.ssCoef N) (nat 0) xs hne
+    simp only [Spec.superSmoother, h, if_false, hv]
+    simp; omega
+
+/-- RoofingFilter(N, M) reports from value N+M+1 -/
+theorem roofing_ready [Transc α] (N M' : Nat) (hM : 0 < M') (xs : List α) :
+    (∃ v, (roofCoreU (α := α) N M').outAfter xs = .ok (some v)) ↔ N + M' + 1 ≤ xs.length := by
+  rw [C11.roofing_eq N M' hM]
+  have hl : ((hpSeq N xs).reverse.drop (N + 1)).length = xs.length - (N + 1) := by
+    have := Roof.hpFold_length N xs
+    simp only [List.length_drop, List.length_reverse]
+    show (Roof.hpFold N xs).1.length - (N + 1) = _
+    rw [this]
+  by_cases h : ((hpSeq N xs).reverse.drop (N + 1)).length < M'
+  · simp only [Spec.roofing, Spec.superSmoother, h, if_true]
+    rw [hl] at h; simp; omega
+  · have hne : (hpSeq N xs).reverse.drop (N + 1) ≠ [] := by
+      intro e; rw [e] at h; simp at h; omega
+    obtain ⟨v, hv⟩ := smoothSeq_head (Spec.ssCoef M') (nat 0) _ hne
+    simp only [Spec.roofing, Spec.superSmoother, h, if_false, hv]
+    rw [hl] at h; simp; omega
+
+/-- Alma, CenterOfGravity, BinaryEntropy, LaguerreFilter report from the 1st value -/
+theorem alma_ready [Transc α] (N : Nat) (hN : 0 < N) (sigma offset : α) (xs : List α) :
+    (∃ v, (almaCore (α := α) N sigma offset).outAfter xs = .ok (some v)) ↔ 1 ≤ xs.length := by
+  rw [C04.alma_eq N hN]
+  cases xs <;> simp [Spec.alma]
+
+theorem cog_ready (N : Nat) (hN : 0 < N) (xs : List α) :
+    (∃ v, (cogCore (α := α) N).outAfter xs = .ok (some v)) ↔ 1 ≤ xs.length := by
+  rw [Cog.outAfter_eq N hN]
+  cases xs with
+  | nil => simp [Spec.cog, lastN]
+  | cons x r =>
+    have : lastN N (x :: r) ≠ [] := by
+      intro e; have := lastN_length N (x :: r); rw [e] at this; simp at this; omega
+    simp [Spec.cog, this]
+
+theorem entropy_ready [Transc α] (N : Nat) (hN : 0 < N) (xs : List α) :
+    (∃ v, (bentCore (α := α) N).outAfter xs = .ok (some v)) ↔ 1 ≤ xs.length := by
+  rw [C02.entropy_eq N hN]
+  cases xs with
+  | nil => simp [Spec.entropy, lastN]
+  | cons x r =>
+    have : lastN N (x :: r) ≠ [] := by
+      intro e; have := lastN_length N (x :: r); rw [e] at this; simp at this; omega
+    simp [Spec.entropy, this]
+
+theorem laguerreFilter_ready [Transc α] (g : α) (xs : List α) :
+    (∃ v, (lagfCore (α := α) g).outAfter xs = .ok (some v)) ↔ 1 ≤ xs.length := by
+  rw [C11.laguerreFilter_eq]
+  cases xs <;> simp [Spec.laguerreFilter]
 
 /-- readiness never reverts, as a consequence: if the view reports after `xs` it reports after `xs ++ ys` (Sma) -/
 theorem sma_ready_stable (N : Nat) (hN : 0 < N) (xs ys : List α)
